@@ -730,3 +730,44 @@ pub fn ax1<T: Fl>(x: &[T]) -> Array1<T> {
         Array1::from(x.to_vec())
     }
 }
+
+
+/// The same boundary specification in other axis units: the axis is multiplied by `cx` (a power
+/// of two), so first derivatives divide by cx and second derivatives by cx^2. `None` when a
+/// converted value is not finite.
+pub fn spec_in_axis_units(spec: &BcSpec, cx: f64) -> Option<BcSpec> {
+    let conv = |e: End| -> Option<End> {
+        Some(match e {
+            End::First(v) => {
+                let w = v / cx;
+                if !w.is_finite() {
+                    return None;
+                }
+                End::First(w)
+            }
+            End::Second(v) => {
+                let w = v / (cx * cx);
+                if !w.is_finite() {
+                    return None;
+                }
+                End::Second(w)
+            }
+            o => o,
+        })
+    };
+    Some(match spec {
+        BcSpec::Lanes(v) => BcSpec::Lanes(v.iter().map(|&(l, r)| Some((conv(l)?, conv(r)?))).collect::<Option<Vec<_>>>()?),
+        BcSpec::RowAll(e) => BcSpec::RowAll(conv(*e)?),
+        BcSpec::Rows(v) => BcSpec::Rows(
+            v.iter()
+                .map(|r| {
+                    Some(match r {
+                        RowSpec::Kind(e) => RowSpec::Kind(conv(*e)?),
+                        RowSpec::Mixed(l, r) => RowSpec::Mixed(conv(*l)?, conv(*r)?),
+                    })
+                })
+                .collect::<Option<Vec<_>>>()?,
+        ),
+        o => o.clone(),
+    })
+}
